@@ -578,7 +578,7 @@ func c18NoPeers(p *Prog, r *Report) {
 		if len(pre) == 1 {
 			// exactly then: best-effort (or any other mode) does not switch the check off
 			dom := map[string][]int64{"recv.closed": {0, 1}, "recv.failNoPeers": {0, 1}, "len(recv.pipes)": {0, 1}, "recv.bestEffort": {0, 1}}
-			res := ComparePred(pre[0].In.Block(), dom, nil, func(env map[string]int64) bool {
+			res := ComparePred(predBlock(pre[0]), dom, nil, func(env map[string]int64) bool {
 				return env["recv.closed"] == 0 && env["recv.failNoPeers"] != 0 && env["len(recv.pipes)"] == 0
 			})
 			q.Req(R, "xpush.SendMsg/fast-fail-exact", res.OK && res.Undec == "", pre.Pos(p), "ErrNoPeers exactly when open, fail-no-peers and no pipe (whatever the other modes)", "xpush.SendMsg's immediate ErrNoPeers has a different condition than !closed && failNoPeers && len(pipes)==0: "+res.Counter+res.Undec)
